@@ -298,7 +298,15 @@ func (v *Value) Len() int {
 func (v *Value) Slice(i, j int) *Value {
 	switch v.getResolvedValue().Kind() {
 	case reflect.Array, reflect.Slice:
-		return AsValue(v.getResolvedValue().Slice(i, j).Interface())
+		rv := v.getResolvedValue()
+		if rv.Kind() == reflect.Array && !rv.CanAddr() {
+			// An array passed by value is not addressable and reflect refuses
+			// to slice it (panic); slice a copy instead.
+			cp := reflect.MakeSlice(reflect.SliceOf(rv.Type().Elem()), rv.Len(), rv.Len())
+			reflect.Copy(cp, rv)
+			rv = cp
+		}
+		return AsValue(rv.Slice(i, j).Interface())
 	case reflect.String:
 		runes := []rune(v.getResolvedValue().String())
 		return AsValue(string(runes[i:j]))
